@@ -61,6 +61,7 @@ QSEG = [[(0.25, 0.5), (3.75, 1.5)], [(0.5, 3.5), (3.5, 0.5)], [(1, 0), (1, 4)], 
 KINDS = ["tc2", "tc3", "net_post", "net_pre"]
 
 OBLIGATIONS = {
+    "decimal_coordinates": "an index over decimal coordinates of mixed sign (extent [-5, 5.7] x [-4.9, 2.6]) with margin 0 and the default margin",
     "on_feature_query_on_a_cell_border": "a point query at a vertex / segment middle of a feature that lies on a cell border returned that feature",
     "vertex_on_cell_corner": "a feature vertex lies on a corner of the grid",
     "segment_along_grid_line": "a proper feature segment lies on a grid line",
@@ -83,12 +84,15 @@ OBLIGATIONS = {
 
 def _seconds(name, variant):
     if name == "dots":       # a tiny feature just inside the lower-left corner of one unit cell (grid lines on the integers): found only
-        lat = alpha.order(variant, LAT)           # through that cell, so the far corner cells of a neighbourhood window matter
+        lat = alpha.order(_base(variant), LAT)           # through that cell, so the far corner cells of a neighbourhood window matter
         return [[(a + 0.03125, b + 0.03125), (a + 0.0625, b + 0.03125)] for (a, b) in lat if a < 4 and b < 4]
+    if name == "diag2":      # segments that end at the lattice centre (2, 2) coming in diagonally: with the default resolution the
+        c = (2, 2)           # centre is a cell corner, and the cell beyond it holds nothing of the segment but that end point
+        return [[a, c] for a in ((0, 4), (4, 0), (0, 0), (4, 4))] + [[c, a] for a in ((0, 4), (4, 0), (1, 3), (3, 1))]
     if name == "all":
-        lat = alpha.order(variant, LAT)
+        lat = alpha.order(_base(variant), LAT)
         return [[a, b] for a in lat for b in lat] + [[a, b, c] for a in lat for b in lat for c in lat]
-    lat = alpha.order(variant, {"two": LAT, "sub3": SUB3, "sub2": SUB2}[name])
+    lat = alpha.order(_base(variant), {"two": LAT, "sub3": SUB3, "sub2": SUB2}[name])
     return [[a, b] for a in lat for b in lat]
 
 
@@ -97,7 +101,7 @@ def _tier_plan(tier):
     ex = list(range(5))
     if tier == "quick":
         return [("tc2", "two", ex, False), ("tc3", "sub3", ex, True), ("net_post", "sub3", ex, False),
-                ("net_pre", "sub3", ex, False), ("tc3", "sub2", [5], False), ("tc2", "dots", [0, 1, 2], False)]
+                ("net_pre", "sub3", ex, False), ("tc3", "sub2", [5], False), ("tc3", "diag2", [5], False), ("tc2", "dots", [0, 1, 2], False)]
     return [("tc2", "all", ex, False), ("tc3", "two", ex, True), ("net_post", "two", ex, False),
             ("net_pre", "two", ex, False), ("tc3", "sub3", [5], False), ("net_pre", "sub2", [5], False),
             ("tc2", "dots", ex, True)]
@@ -116,13 +120,43 @@ def bounds(tier, variant):
 # ---------------------------------------------------------------------------
 # building the real objects
 # ---------------------------------------------------------------------------
+# The "decimal" frame (variant + 10): the five lattice abscissas / ordinates are decimal literals of mixed sign, not an affine
+# image of the integers - an extent of the kind real data has, in which fl(min + fl(max - min)) != max.
+DECIMAL_X = [-5.0, -2.3, 0.4, 3.1, 5.7]
+DECIMAL_Y = [-4.9, -3.0, -1.1, 0.7, 2.6]
+
+
+def _base(variant):
+    return variant % 10
+
+
+def _decimal(variant):
+    return variant >= 10
+
+
+def _scale(variant):
+    return 2.0 if _decimal(variant) else alpha.scale(variant)
+
+
+def _pl(table, u):
+    """table at the integers, linear in between (and beyond the ends)."""
+    i = min(len(table) - 2, max(0, int(math.floor(u))))
+    if u == i:
+        return table[i]
+    if u == i + 1:
+        return table[i + 1]
+    return table[i] + (u - i) * (table[i + 1] - table[i])
+
+
 def _xy(variant, p):
+    if _decimal(variant):
+        return (_pl(DECIMAL_X, p[0]), _pl(DECIMAL_Y, p[1]))
     return alpha.xy(variant, p[0], p[1])
 
 
 def _track(variant, poly, k):
     t = Track()
-    t0 = alpha.t0(variant)
+    t0 = alpha.t0(_base(variant))
     for i, p in enumerate(poly):
         x, y = _xy(variant, p)
         t.addObs(Obs(ENUCoords(x, y, 0.0), alpha.obstime(t0 + 10 * k + i)))
@@ -159,7 +193,7 @@ def _add_edge(net, variant, poly, k):
 def _resolution(variant, res):
     if res is None:
         return None
-    s = alpha.scale(variant)
+    s = _scale(variant)
     return (res[0] * s, res[1] * s)
 
 
@@ -618,7 +652,7 @@ def run_index(spec, full_nbh, ctx):
     key = ("track", tuple(_xy(variant, p) for p in (QSEG[0] + QSEG[1])))
     ctx.case(check_query(B, list(key[1]), "track", ctx))
     # (4) ground-distance neighbourhood
-    s = alpha.scale(variant)
+    s = _scale(variant)
     near_corner = [(x - 0.03125 * s, y - 0.03125 * s) for (x, y) in lat
                    if x - 0.03125 * s > G["xmin"] + e and y - 0.03125 * s > G["ymin"] + e]     # just inside an upper-right cell corner
     for (qx, qy) in (pts if full_nbh else lat) + near_corner:
@@ -664,11 +698,19 @@ def plan(tier, variant):
                 for lo in range(0, n, per):
                     shards.append({"kind": kind, "seconds": name, "ri": ri, "mi": mi, "lo": lo, "hi": min(n, lo + per),
                                    "full_nbh": full, "variant": variant})
+    # the decimal frame: margin 0 (the extent of the index is the extent of the data) and the default 5 %
+    n = len(_seconds("sub3", variant))
+    for ri in ([0, 1, 3] if tier == "quick" else list(range(5))):
+        for mi in (MARGINS.index(0), MARGINS.index(0.05)):
+            shards.append({"kind": "tc2", "seconds": "sub3", "ri": ri, "mi": mi, "lo": 0, "hi": n, "full_nbh": False,
+                           "variant": variant + 10})
     return shards
 
 
 def run_shard(shard, ctx):
     v = shard["variant"]
+    if _decimal(v):
+        ctx.oblige("decimal_coordinates")
     res, margin = RES[shard["ri"]], MARGINS[shard["mi"]]
     sampled = False
     for second in _seconds(shard["seconds"], v)[shard["lo"]:shard["hi"]]:
